@@ -47,9 +47,9 @@ LoggedNode(n) == [id |-> n.id, wb |-> NormB(n.wb), c |-> n.c,
                   execs |-> SeqBag([i \in DOMAIN n.execs |-> [b |-> NormB(n.execs[i].b), code |-> n.execs[i].code]])]
 LoggedTree(tr) == {LoggedNode(tr[i]) : i \in DOMAIN tr}
 \* every logged execution reports what its script does; `values` holds the results of the completed ones
-ExecsOk(tr) == \A i \in DOMAIN tr : \A j \in DOMAIN tr[i].execs :
+ExecsOk(tr, writable) == \A i \in DOMAIN tr : \A j \in DOMAIN tr[i].execs :
                   LET x == tr[i].execs[j]
-                  IN IF ExecFails(x.code) THEN ~x.ok
+                  IN IF ExecFails(x.code, writable) THEN ~x.ok
                      ELSE x.ok /\ Norm(x.val) = ExecValue(x.code, NormB(x.b))
 ValuesOk(lr) == SeqBag([i \in DOMAIN lr.vals |-> Norm(lr.vals[i])])
                 = SeqBag(SelectSeq(FlatVals(lr.tree), LAMBDA v : TRUE))
@@ -62,7 +62,7 @@ RespMatch(op, r, lr) ==
          [] op.op = "SearchFacts" -> r.found = NormFound(lr.found)
          [] op.op = "ProcessEvent" -> /\ NoBody(r.found) = NoBody(NormFound(lr.found))
                                       /\ r.tree = LoggedTree(lr.tree)
-                                      /\ ExecsOk(lr.tree)
+                                      /\ ExecsOk(lr.tree, r.n = 1)
                                       /\ ValuesOk(lr)
          [] op.op \in {"ListRules", "SearchRules", "GetParents"} -> r.ids = Rng(lr.ids)
          [] op.op = "StateSize" -> r.n = lr.n
